@@ -75,6 +75,11 @@ def rule_G6(prog, fixture=False):
                     ol, orr = ctx.objs(l, ("size", "val")), ctx.objs(r, ("size", "val"))
                     if (ol & oa and orr & ob) or (ol & ob and orr & oa):
                         guard = c
+            if guard is None and _g6_internal(prog, f):
+                via = _g6_guard_in_callers(prog, f, oa, ob)
+                if via:
+                    res.add(key, DISCHARGED, where, what, "every caller of this internal helper compares the two quantities first (%s)" % via, func=f.name)
+                    continue
             if guard is not None:
                 res.add(key, DISCHARGED, where, what, "dominated by the live comparison %s" % guard.text(), func=f.name)
             else:
@@ -84,6 +89,70 @@ def rule_G6(prog, fixture=False):
                         % (sorted("/".join(o) for o in oa), sorted("/".join(o) for o in ob), use), func=f.name)
     res.stats["raw_difference_sites"] = n_sites
     return res
+
+
+def _g6_internal(prog, f):
+    if f.get("access") in ("private", "protected") or f.get("static_linkage") or "(anonymous namespace)" in f.qn:
+        return True
+    from .rules_assume import _is_internal
+    try:
+        return bool(_is_internal(f))
+    except Exception:
+        return False
+
+
+def _g6_guard_in_callers(prog, f, oa, ob):
+    """the helper's operands are a parameter and object state (or two parameters): every call site is dominated by a live
+    comparison of what is passed for the one with what stands for the other.  -> description, or ''"""
+    callers = [(c, call) for (c, call) in prog.callers_of(f.usr) if not c.file.endswith("coverage.cc")]
+    if not callers:
+        return ""
+    pidx = {p["n"]: i for i, p in enumerate(f.params)}
+    names = []
+    for (caller, call) in callers:
+        cn = caller.nodes.get(call["node"])
+        if cn is None:
+            return ""
+        cctx = GuardCtx(prog, caller, group_params=False)
+        args = cn.call_args()
+
+        def translate(objs):
+            out = set()
+            for o in objs:
+                if o[0] == "parm":
+                    i = pidx.get(o[1])
+                    if i is None or i >= len(args):
+                        return None
+                    out |= cctx.objs(args[i], ("size", "val"))
+                elif o == ("this",):
+                    obj = cn.call_object()
+                    if obj is None or obj.strip_all().k == "CXXThisExpr":
+                        out.add(("this",))
+                    else:
+                        out |= cctx.objs(obj, ("size", "val")) | cctx.base_objs(obj)
+                else:
+                    out.add(o)
+            return out
+        ta, tb = translate(oa), translate(ob)
+        if not ta or not tb:
+            return ""
+        caller.blocks
+        found = False
+        for fact in caller.facts_at(cn):
+            if fact.belief:
+                continue
+            for (c, p) in atoms_of(fact.cond, fact.pol):
+                cmp_ = as_comparison(c)
+                if cmp_ is None:
+                    continue
+                l, op, r = cmp_
+                ol, orr = cctx.objs(l, ("size", "val")), cctx.objs(r, ("size", "val"))
+                if (ol & ta and orr & tb) or (ol & tb and orr & ta):
+                    found = True
+        if not found:
+            return ""
+        names.append(caller.short)
+    return ", ".join(sorted(set(names))[:3])
 
 
 # =================================================================================================
